@@ -6,11 +6,33 @@ import XV.Lemmas.UndoBlock
 import XV.Lemmas.UndoWalk
 /-!
 C01 — the state at a block is a pure function of its chain: undoing exactly cancels playing.
-Transaction level: `undoTx (applyTx s t) t` restores every row of the UTXO table and the total
-(`undo_apply_U`, `undo_apply_total`), for every admitted transaction whose inputs cite the frozen height of the
-output they spend. Block level and walks are compositions of these steps; that the composition agrees with the
-implementation on every history is what the correspondence check and the fresh-replica oracle establish
-(this file states what is proved, the registry text says what is partial).
+
+Transaction level. `undoTx (applyTx s t) t` restores every row of the UTXO table and the total (`undo_apply_U`,
+`undo_apply_total`, `undo_apply_frame`), for every admitted transaction whose inputs cite the frozen height of the
+output they spend; it restores the current version of every key as the reader `curVer` sees it (`undo_apply_keys`)
+and, on a well-formed state (`KVInv`), the live key table row by row, with no new recycle row (`undo_apply_rows`,
+`undo_apply_KVInv`, `applyTx_KVInv`). The raw recycle table ZD is NOT restored in general (`undo_apply_ZD_refuted`).
+
+Equivalence. `≈` (`Obs`) = same UTXO rows, key versions, total, pointer, irreversible height, pool; an equivalence
+(`obs_equiv`) respected by admission and every table operation (`admission_congr`, `applyTx_congr`, `payFee_congr`,
+`undoPayFee_congr`; `undoTx_congr` needs `UndoSafe`, and is false without: `undoTx_congr_needs_safe`). `Refines` /
+`TRefines` (Lemmas/UndoObs.lean) is the one-directional strengthening that apply-then-undo establishes and that all
+operations are monotone for; it is what chains.
+
+Fees, blocks. `undoPayFee_payFee`; `undo_fee_apply_refines` (one block step and its undo); `undoBlock_todoBlock`
+(+ `_obs`, `_tip`): a non-pruning `undoBlock` after `todoBlock` gives back the state, pointer at the parent, the
+irreversible height NOT restored; `undoBlock_play` the same after `play` with an empty pool.
+
+Walks. `ancestors_chain`, `undoTodo_spec` (the two lists are the branches above the lowest common ancestor),
+`walk_reaches` (a successful walk ends at its destination), `rollback_applyPool`, `undoAll_replayChain`,
+`walk_refines` / `walk_refines_full` (the result is the replay of the destination branch from the common ancestor,
+then the old pool re-admitted), and with the canonical state `canon` of a block (replay of its chain from the root):
+`walk_canonical`, `walk_invariant`, `walk_confluent` — after a successful walk the tables are those of the canonical
+state of the destination, whatever branch the node came from.
+
+Not proved here: `play` with a non-empty pool and `playForMiner` against the canonical state (they need the
+commutation of independent transactions), pruning walks, and the induction over whole histories; for those the
+correspondence check and the fresh-replica oracle stand (the registry text says what is partial).
 -/
 namespace XV.C01
 open XV.Chain XV.C02
@@ -711,6 +733,44 @@ theorem walk_reaches (e : Env) (s : St) (lh : Int) (dest : Nat) (hpl : ParentLow
         | none => simp only [hg] at htgt ⊢; rw [h0, htgt]
     · simp [hok2] at hok
   · simp [hok1] at hok
+
+/-- the same for both values of the prune flag -/
+theorem walk_reaches_any (e : Env) (s : St) (lh : Int) (dest : Nat) (prune : Bool) (hpl : ParentLower e)
+    (hid : (e.block dest).id = dest) (hok : (walk e s lh dest prune).2 = true) :
+    (walk e s lh dest prune).1.pointer = dest := by
+  have htgt := undoTodo_target e s.pointer dest hpl
+  unfold walk at hok ⊢
+  simp only at hok ⊢
+  have h0 : ({ (s.pool.reverse.foldl (fun st i => undoTx e st (e.tx i)) s) with pool := [] } : St).pointer = s.pointer :=
+    foldl_undoTx_pointer e s.pool.reverse s
+  generalize hs0 : ({ (s.pool.reverse.foldl (fun st i => undoTx e st (e.tx i)) s) with pool := [] } : St) = s0
+    at h0 hok ⊢
+  have hu := undoAll_pointer' e prune (undoTodo e s.pointer dest).1 s0
+  generalize hua : walk.undoAll e prune (undoTodo e s.pointer dest).1 s0 = ua at hu hok ⊢
+  obtain ⟨s1, ok1⟩ := ua
+  simp only at hu
+  by_cases hok1 : ok1 = true
+  · simp only [hok1, Bool.not_true, Bool.false_eq_true, ↓reduceIte] at hok ⊢
+    have ht := todoAll_pointer e lh (undoTodo e s.pointer dest).2 s1
+    generalize hta : walk.todoAll e lh (undoTodo e s.pointer dest).2 s1 = ta at ht hok ⊢
+    obtain ⟨s2, ok2⟩ := ta
+    simp only at ht
+    by_cases hok2 : ok2 = true
+    · simp only [hok2, Bool.not_true, Bool.false_eq_true, ↓reduceIte] at hok ⊢
+      rw [foldl_doTx_pointer, ht hok2]
+      cases hl : (undoTodo e s.pointer dest).2.getLast? with
+      | some bi =>
+        simp only [hl] at htgt ⊢
+        rw [htgt, hid]
+      | none =>
+        simp only [hl] at htgt ⊢
+        rw [hu hok1]
+        cases hg : (undoTodo e s.pointer dest).1.getLast? with
+        | some u => simp only [hg] at htgt ⊢; rw [htgt]; rfl
+        | none => simp only [hg] at htgt ⊢; rw [h0, htgt]
+    · simp [hok2] at hok
+  · simp [hok1] at hok
+
 
 -- non-vacuity: a tree 1 ← 2 ← 3 and 2 ← 4 ← 5 (heights 1 2 3 / 3 4), empty blocks; the tip is 3
 private def treeEnv : Env := { blocks := [
